@@ -270,7 +270,7 @@ Loop:
 			}
 
 			if _, err = c.writev(bs[0:r]); err != nil {
-				logging.Warnf("[%dm][%dc] write to client failed, error: %s, body: %s", cur.Id, c.fd, err, cur.RspBodyString())
+				logging.Warnf("[%dm][%dc] write to client failed, error: %s", curId, curFd, err)
 				break
 			}
 			if !c.opened {
@@ -281,7 +281,7 @@ Loop:
 		}
 
 		if _, err = c.writev(bs); err != nil {
-			logging.Warnf("[%dm][%dc] write to client failed, error: %s, body: %s", cur.Id, c.fd, err, cur.RspBodyString())
+			logging.Warnf("[%dm][%dc] write to client failed, error: %s", curId, curFd, err)
 			continue
 		}
 
